@@ -126,6 +126,10 @@ func GenHostileRoute(r *rand.Rand, l *Lab, denom string) (spec.Route, string) {
 		case 17:
 			cls = "long-hook"
 			rt.HookID = append(append([]byte(nil), w.Hyp.NoopHook.Bytes()...), 7)
+			if r.Intn(2) == 0 {
+				cls = "short-hook"
+				rt.HookID = append([]byte(nil), w.Hyp.NoopHook.Bytes()[:1+r.Intn(31)]...)
+			}
 		case 0:
 			rt.Domain, cls = w.Hyp.Unenrolled[r.Intn(len(w.Hyp.Unenrolled))], "unenrolled"
 		case 1:
